@@ -77,7 +77,8 @@ RFailCloseAgain == carrier = "closed" /\ RFailClose
 RECURSIVE CanonSender(_)
 CanonSender(j) == IF j > Len(Trace) \/ Trace[j].tr # E.tr THEN "none"
                   ELSE IF Trace[j].ev = "api.ret" /\ Trace[j].op = "send" /\ spc[Trace[j].g] = "called" THEN Trace[j].g ELSE CanonSender(j + 1)
-Canonical(s) == (werr \/ berr) => s = CanonSender(l)
+\* ... and so are sends whose bytes are never handed to the carrier at all (they stay in the buffer): nothing observes their order
+Canonical(s) == (werr \/ berr \/ nacc >= Len(ExpectOf[E.tr])) => s = CanonSender(l)
 \* Partial-order reduction: steps that are invisible and only finish what their thread has begun under a lock it holds
 \* (copying into the buffer, leaving the writer, the unobservable repeated close) are left-movers: they are taken at once,
 \* before anything else, one thread at a time.  Every acceptable trace stays acceptable; the search stays linear.
